@@ -131,6 +131,9 @@ func appendLen(p []byte, n int) []byte {
 func genBlock(r *Rng) (src []byte, decoded int, dictLen int) {
 	nseq := 1 + r.Intn(5)
 	dictLen = r.Pick([]int{0, 0, 0, 1, 5, 40, 300})
+	if r.Intn(400) == 0 {
+		dictLen = r.Pick([]int{65535, 65536, 65537, 70000}) // only the last 64 KiB of a dictionary are reachable
+	}
 	di := 0
 	for s := 0; s < nseq; s++ {
 		ll := r.Pick(lenClasses)
@@ -189,6 +192,57 @@ func genBlock(r *Rng) (src []byte, decoded int, dictLen int) {
 			src = appendLen(src, ml-15)
 		}
 		di += ml + 4
+	}
+	// two matches into the dictionary in one block, the first one running on into the block's own output
+	// (overlapping or not), short literals in between, room after them: what the decoders remember about
+	// the dictionary across the first copy is used by the second
+	if dictLen > 8 && r.Intn(6) == 0 {
+		src, di = nil, 0
+		emit := func(ll, off, ml int) {
+			tok := byte(ml - 4)
+			if ml-4 >= 15 {
+				tok = 0xF
+			}
+			if ll >= 15 {
+				tok |= 0xF0
+			} else {
+				tok |= byte(ll << 4)
+			}
+			src = append(src, tok)
+			if ll >= 15 {
+				src = appendLen(src, ll-15)
+			}
+			src = append(src, r.Bytes(ll)...)
+			di += ll
+			src = append(src, byte(off), byte(off>>8))
+			if ml-4 >= 15 {
+				src = appendLen(src, ml-4-15)
+			}
+			di += ml
+		}
+		ll1 := r.Pick([]int{0, 0, 1, 3, 20})
+		k1 := 1 + r.Intn(8) // bytes taken from the dictionary
+		if k1 > dictLen {
+			k1 = dictLen
+		}
+		emit(ll1, ll1+k1, r.Pick([]int{k1 + 1, k1 + 4, 20, 24, 40}))
+		if r.Bool() { // an interior match copied by the long path
+			emit(r.Intn(4), 1+r.Intn(di), r.Pick([]int{17, 19, 30}))
+		}
+		ll2 := r.Pick([]int{0, 1, 4, 14})
+		k2 := 1 + r.Intn(dictLen)
+		emit(ll2, di+ll2+k2, r.Pick([]int{4, 5, 8, 18}))
+		if r.Bool() {
+			k3 := 1 + r.Intn(dictLen)
+			emit(r.Intn(5), di+k3, 4+r.Intn(10))
+		}
+		// final literals, long enough to keep the sequences away from the ends
+		fl := 40 + r.Intn(40)
+		src = append(src, 0xF0)
+		src = appendLen(src, fl-15)
+		src = append(src, r.Bytes(fl)...)
+		di += fl
+		return src, di, dictLen
 	}
 	// directed tail: the decoders' fast paths switch at 14/15/16 literals and 4..18-byte matches, and a
 	// block may end with a match, with an empty literal run, or with a short one
